@@ -8,6 +8,7 @@ Extracts from the CURRENT sources the bodies of
     Future<void>::Future()  ~Future()  join()  abort()  isAborting()  isFinished()  isAborted()  set()   enum Future<void>::State
     Future<A>::operator const A&()  ~Future()   (the other members of Future<A> must be plain forwards to the embedded Future<void>)
     Future<void>::proc<A> / Future<A>::proc<B>: the order of body call / result store / set() / delete
+    Signal::set()  reset()  wait()  of src/Signal.cpp (pthread branch)
     ThreadContext::proc (the worker loop)      ThreadPool::run up to its third counter read (push loop with back-pressure, the counters;
                                                a void helper of the class that the loop is moved into is inlined at its call)
 and the worker-count decision of ThreadPool::run (from `Atomic::increment(_pushedJobs)` on: counter arithmetic with 64-bit wrap-around and the
@@ -18,7 +19,7 @@ lean/Nstd/Future/PropsGen.lean proves that the generated micro-step functions AR
 (`ringStep`, `stepFrame … (.fSet/.fRst/.fRstLoad/.fWait/.join/.joinClr/.pSetRd/.pSetX/.pSig/.evResult/…)`, `Ring.init`, `mkPool`,
 the branch taken by `runRdTc` = the translated decision tree).
 NOT translated (hand translation, tied by the step-by-step replay only): the effect statements of ThreadPool::run after the decision
-(spawn and retire branches under the mutex, purge of the context list, Thread::start), ~ThreadPool, startProc, Signal.cpp.
+(spawn and retire branches under the mutex, purge of the context list, Thread::start), ~ThreadPool, startProc.
 
 Micro-step compilation (push / pop / size / FastSignal::*): the body is lowered to a list of instructions; every access to a
 SHARED location (`_tail`, `_head`, `node->tail`, `node->head`, `node->data`, `_state`, `_aborting`, `_joinable`, `result`; plain or through
@@ -42,6 +43,9 @@ Semantics of the translation (assumptions, listed in the MANIFEST note):
   Atomic::compareAndSwap(x,a,b) -> reads x, writes b when x = a, yields the old value;  swap -> writes, yields old;  testAndSet -> writes 1, yields old;
   Atomic::increment -> writes x+1, yields x+1;  Atomic::load -> reads;  Atomic::memoryBarrier() -> nothing (sequential consistency)
   ghost fields of the model (`pushLog`, `popLog`) are not produced by the translation (the equality theorems are modulo ghosts)
+  ASSERT(cond);                 -> dropped (a debug check of a condition that holds; writes nothing)
+  const T x = <thread-local expression>;  -> x is a name for that value (refused when an operand is modified afterwards)
+  pthread_mutex_lock / unlock, pthread_cond_broadcast -> one micro-step each on `SigSt`; pthread_cond_wait -> three (release + enter the wait set, woken, re-lock)
 """
 import re
 import sys
@@ -55,6 +59,26 @@ class Refuse(Exception):
 def strip_comments(src):
     src = re.sub(r"/\*.*?\*/", " ", src, flags=re.S)
     return re.sub(r"//[^\n]*", "", src)
+
+
+def strip_asserts(src):
+    """`ASSERT(cond);` statements: debug checks of conditions that hold (they vanish with NDEBUG and write nothing): no effect"""
+    out, i = [], 0
+    for m in re.finditer(r"\bASSERT\s*\(", src):
+        if m.start() < i:
+            continue
+        depth, j = 1, m.end()
+        while depth and j < len(src):
+            depth += (src[j] == "(") - (src[j] == ")")
+            j += 1
+        k = j
+        while k < len(src) and src[k] in " \t":
+            k += 1
+        if k < len(src) and src[k] == ";":
+            out.append(src[i:m.start()])
+            i = k + 1
+    out.append(src[i:])
+    return "".join(out)
 
 
 TOK = re.compile(r"\s*(->|==|!=|<=|>=|&&|\|\||\+\+|--|>>|<<|\|=|&=|\+=|-=|::|0x[0-9a-fA-F]+|[A-Za-z_]\w*|\d+|[{}()\[\];,<>=+\-*/!?:&.~|^%])")
@@ -96,7 +120,7 @@ def extract(src, what, sig_rx):
 
 
 IDENT = re.compile(r"[A-Za-z_]\w*$")
-TYPES = ("usize", "ssize", "uint32", "Node")
+TYPES = ("usize", "ssize", "uint32", "int", "uint", "Node")
 
 
 # ---- parser: statements and expressions of the subset -------------------------------------------------------------------
@@ -205,6 +229,10 @@ class P:
             if re.fullmatch(r"NSTD_VERIF_YIELD\(.*\)", text):      # marker of the verification hook: no effect
                 self.skip_semicolon()
                 return ("block", [])
+            m = re.fullmatch(r"(?:VERIFY\()?pthread_(mutex_lock|mutex_unlock|cond_broadcast|cond_wait)\(\(pthread_(?:mutex|cond)_t\*\)[mc]data(?:,\(pthread_mutex_t\*\)mdata)?\)(?:==0\))?", text)
+            if m:
+                self.skip_semicolon()
+                return ("posix", {"mutex_lock": "lock", "mutex_unlock": "unlock", "cond_broadcast": "bcast", "cond_wait": "cwait"}[m.group(1)])
             if text == "Atomic::memoryBarrier()":
                 self.skip_semicolon()
                 return ("block", [])
@@ -213,6 +241,11 @@ class P:
                 return ("alloc_queue",)
         if tok == "new":
             raise Refuse(f"{self.fn}: `new` expression outside the understood placement form")
+        is_const = False
+        if tok == "const" and self.peek(1) in TYPES:
+            self.eat("const")
+            tok = self.peek()
+            is_const = True
         if tok in TYPES and (self.peek(1) == "*" or IDENT.match(self.peek(1) or "")):
             ty = self.eat()
             decls = []
@@ -227,7 +260,7 @@ class P:
                 if self.peek() == "=":
                     self.eat("=")
                     init = self.assign()
-                decls.append((ty + ("*" if ptr else ""), name, init))
+                decls.append((ty + ("*" if ptr else ""), name, init, is_const))
                 if self.peek() == ",":
                     self.eat(",")
                     continue
@@ -285,7 +318,10 @@ class P:
         if tok == "-":
             self.eat()
             return ("neg", self.unary())
-        if tok in ("++", "--", "*", "~"):
+        if tok == "~":
+            self.eat()
+            return ("bnot", self.unary())
+        if tok in ("++", "--", "*"):
             raise Refuse(f"{self.fn}: unary `{tok}` is outside the translated subset")
         if tok == "(" and self.peek(1) in ("ssize", "usize", "uint32") and self.peek(2) == ")":
             self.eat(); ty = self.eat(); self.eat()
@@ -406,6 +442,10 @@ class Lower:
         return f"L{self.labels}"
 
     def emit(self, *ins):
+        if ins[0] in ("local", "load", "aload", "cas", "xchg", "tas", "inc") and isinstance(ins[1], str):
+            for name, ent in self.locals.items():
+                if ent[0] is None and ins[1] in ent[3]:
+                    self.refuse(f"an operand of the const local `{name}` is modified after its declaration")
         self.ins.append(ins)
 
     # shared locations: ("mem", name) | ("slot", slotexpr(pure lean), field)
@@ -442,7 +482,10 @@ class Lower:
             return str(e[1]), "nat"
         if k == "id":
             if e[1] in self.locals:
-                f, ty = self.locals[e[1]]
+                ent = self.locals[e[1]]
+                if ent[0] is None:
+                    return ent[2], ent[1]
+                f, ty = ent[0], ent[1]
                 return f"L.{f}", ty
             if e[1] in self.env.const:
                 return self.env.const[e[1]]
@@ -567,7 +610,9 @@ class Lower:
             return ("tmp", t, ty)
         if k == "assign":
             if e[1][0] == "id" and e[1][1] in self.locals:
-                f, ty = self.locals[e[1][1]]
+                if self.locals[e[1][1]][0] is None:
+                    self.refuse(f"assignment to the const local `{e[1][1]}`")
+                f, ty = self.locals[e[1][1]][0], self.locals[e[1][1]][1]
                 if self.count_shared(e[2]):
                     r = self.rv(e[2])
                     self.emit("local", f, self.coerce(self.pure(r), ty))
@@ -696,10 +741,17 @@ class Lower:
         if k == "block":
             self.stmts(s[1])
         elif k == "decl":
-            for ty, name, init in s[1]:
-                lty = {"usize": "nat", "ssize": "int", "uint32": "nat", "Node*": "slot"}.get(ty)
+            for ty, name, init, is_const in s[1]:
+                lty = {"usize": "nat", "ssize": "int", "uint32": "nat", "int": "nat", "uint": "nat", "Node*": "slot"}.get(ty)
                 if lty is None:
                     self.refuse(f"local of type {ty}")
+                if is_const and init is not None and not self.count_shared(init) and not self.has_assign(init) and not self.has_model_call(init):
+                    # a const local with a thread-local initialiser is a name for that value (its operands must not change afterwards)
+                    txt, t = self.pure(init)
+                    if name in self.locals:
+                        self.refuse(f"local `{name}` declared twice")
+                    self.locals[name] = (None, t, self.coerce((txt, t), lty), set(re.findall(r"L\.(\w+)", txt)))
+                    continue
                 f = self.newlocal(name, lty)
                 if init is not None:
                     if self.count_shared(init):
@@ -744,6 +796,12 @@ class Lower:
                 self.inline(e[1][1], e[2])
                 return
             self.refuse(f"expression statement of form `{e[0]}` is outside the translated subset")
+        elif k == "posix":
+            if s[1] == "cwait":
+                # pthread_cond_wait = three scheduling points: release the mutex and enter the wait set; be woken; re-acquire the mutex
+                self.emit("cwait", None); self.emit("cwake", None); self.emit("relock", None)
+            else:
+                self.emit(s[1], None)
         elif k == "pnew":
             loc = self.loc_of(s[1])
             if loc is None or self.loc_type(loc) != "optdata":
@@ -823,7 +881,7 @@ class Lower:
             self.refuse(f"statement form `{k}` is outside the translated subset")
 
 
-SHARED_KINDS = ("load", "store", "cas", "xchg", "tas", "inc", "aload")
+SHARED_KINDS = ("load", "store", "cas", "xchg", "tas", "inc", "aload", "lock", "unlock", "bcast", "cwait", "cwake", "relock")
 
 
 class MicroSteps:
@@ -888,6 +946,16 @@ class MicroSteps:
         elif k == "tas":
             out.append(f"let L := {{ L with {x[1]} := {self.rd(x[2])} }}")
             out.append(f"let {sv} := {self.wr(x[2], '1')}")
+        elif k in ("lock", "relock"):
+            out.append(f"let {sv} := {{ {sv} with owner := some t }}")
+        elif k == "unlock":
+            out.append(f"let {sv} := {{ {sv} with owner := none }}")
+        elif k == "bcast":
+            out.append(f"let {sv} := {{ {sv} with waiters := [] }}")
+        elif k == "cwait":
+            out.append(f"let {sv} := {{ {sv} with owner := none, waiters := {sv}.waiters ++ [t] }}")
+        elif k == "cwake":
+            pass        # being woken changes nothing by itself (leaving the wait set is the broadcaster's / the environment's step)
         elif k == "inc":
             out.append(f"let {sv} := {self.wr(x[2], '(' + self.rd(x[2]) + ' + 1)')}")
             out.append(f"let L := {{ L with {x[1]} := {self.rd(x[2])} }}")
@@ -992,7 +1060,7 @@ RUN_ENV = dict(
 def run_prep(body):
     """the part of run() before the worker-count decision: from the start to the end of the four counter declarations; `Job job = {proc, args};`
     is the queued job (a parameter of the translated step function)"""
-    body, n = re.subn(r"\bJob\s+job\s*=\s*\{\s*proc\s*,\s*args\s*\}\s*;", "", body)
+    body, n = re.subn(r"\b(?:const\s+)?Job\s+job\s*=\s*\{\s*proc\s*,\s*args\s*\}\s*;", "", body)
     if n != 1:
         raise Refuse("ThreadPool::run: `Job job = {proc, args};` not found exactly once")
     k = body.find("Atomic::increment(_pushedJobs)")
@@ -1012,10 +1080,32 @@ def worker_prep(body):
         alias[m.group(2)] = "_pool->" + m.group(3)
         return ""
     body = re.sub(r"(LockFreeQueue\s*<\s*Job\s*>|FastSignal)\s*&\s*(\w+)\s*=\s*_pool\s*->\s*(\w+)\s*;", ref, body)
-    body, n = re.subn(r"\bJob\s+job\s*;", "", body)
+    body, n = re.subn(r"\bJob\s+job\s*(?:=\s*\{\s*0\s*,\s*0\s*\}\s*)?;", "", body)
     if n != 1:
         raise Refuse("ThreadContext::proc: the local `Job job;` is not declared exactly once")
     return body, alias
+
+
+SIG_ENV = dict(
+    state_var="g",
+    shared={"signaled": ("bool", "{r}.signaled", "{{ {r} with signaled := {v} }}")},
+    const={}, calls={},
+)
+
+
+def gen_signal(repo):
+    """Signal::set / reset / wait() of src/Signal.cpp (the pthread branch of the #ifdef _WIN32 alternatives) over `SigSt`"""
+    src = strip_comments((Path(repo) / "src" / "Signal.cpp").read_text())
+    src, n = re.subn(r"#ifdef\s+_WIN32\b.*?#else\b(.*?)#endif", lambda m: m.group(1), src, flags=re.S)
+    if "#if" in src:
+        raise Refuse("Signal.cpp: preprocessor conditionals other than `#ifdef _WIN32 … #else … #endif`")
+    src = strip_asserts(re.sub(r"^\s*#.*$", "", src, flags=re.M))
+    parts, counts = [], {}
+    for fn, rx, ret in (("set", r"void\s+Signal::set\(\s*\)", "Unit"), ("reset", r"void\s+Signal::reset\(\s*\)", "Unit"), ("wait", r"bool\s+Signal::wait\(\s*\)", "Bool")):
+        txt, k = compile_fn(src, f"Signal::{fn}", rx, SIG_ENV, {}, ret, f"sig{fn.capitalize()}Step", "(t : Tid)", "SigSt", f"Sig{fn.capitalize()}L", False)
+        parts.append(f"/-! ### Signal::{fn} (src/Signal.cpp, pthread branch) -/\n" + txt)
+        counts["Signal::" + fn] = k
+    return parts, counts
 
 
 def locals_struct(name, order, poly):
@@ -1095,7 +1185,7 @@ def gen_queue_ctor(src):
                 if not ok:
                     low.refuse("statement of the slot initialisation loop outside the understood form `_queue[i].f = e;`")
                 fld, rhs = b[1][1][2], b[1][2]
-                if fld == "head" and rhs == ("neg", ("num", 1)):
+                if fld == "head" and rhs in (("neg", ("num", 1)), ("bnot", ("cast", "usize", ("num", 0))), ("cast", "usize", ("neg", ("num", 1)))):
                     slot["headT"] = "none"
                 elif fld == "head":
                     slot["headT"] = f"some ({low.pure(rhs)[0]})"
@@ -1125,7 +1215,18 @@ def gen_pool_ctor(src):
     dmin, dmax, dq, inits = (m.group(k).strip() for k in (1, 2, 3, 4))
     end = balanced(src, m.end() - 1)
     body = src[m.end():end - 1]
+    # an initialiser of `_idleResetTime` is accepted and ignored: the member is written by run() before its first read (it is only read in
+    # the retire branch, which needs idleThreads > 1, i.e. an earlier run() that stored it); the model starts it at 0
+    k_ = inits.find("_idleResetTime(")
+    if k_ >= 0:
+        depth, j_ = 1, k_ + len("_idleResetTime(")
+        while depth and j_ < len(inits):
+            depth += (inits[j_] == "(") - (inits[j_] == ")")
+            j_ += 1
+        inits = inits[:k_] + inits[j_:]
     init = dict((a, b.strip()) for a, b in re.findall(r"(_\w+)\(([^()]*)\)", inits))
+    if len(init) != len([x for x in inits.split(",") if x.strip()]):
+        raise Refuse(f"{what}: member initialisers outside the understood form `_member(expr)`")
     want = {"_minThreads": "minThreads", "_maxThreads": "maxThreads", "_queue": "queueSize", "_pushedJobs": "0", "_processedJobs": "0", "_threadCount": "0"}
     if init != want:
         raise Refuse(f"{what}: member initialisers {init} differ from the understood ones {want}")
@@ -1158,7 +1259,7 @@ def gen_pool_ctor(src):
         f"def poolCtorDefault (processors : Nat) : Pool := poolCtor {dminv} processors {dqv}"])
 
 
-def gen_run_decision(src):
+def gen_run_decision(src, cls=""):
     """the worker-count decision of ThreadPool::run (everything after the push loop): the counter arithmetic with `usize`/`ssize`
     wrap-around semantics and the decision TREE obtained by symbolic execution of the statements: branches on conditions over the
     four locals / `_minThreads` / `_maxThreads`, the clock comparison, and the effects `clockStore` (`_idleResetTime = …ticks…`),
@@ -1170,7 +1271,15 @@ def gen_run_decision(src):
     if k < 0:
         raise Refuse(f"{what}: `Atomic::increment(_pushedJobs)` not found")
     k = body.rfind(";", 0, k) + 1
-    toks = tokenize(body[k:])
+    tail = body[k:]
+    # one-line value helpers of the class (`static uint32 idleClock() { return <expr>; }`) are expanded where they are called
+    for m in re.finditer(r"(?:static\s+)?(?:inline\s+)?(?:uint32|usize|uint|int)\s+(\w+)\s*\(\s*\)\s*(?:const\s*)?\{\s*return\s+([^;{}]+);\s*\}", cls):
+        tail = re.sub(r"\b" + m.group(1) + r"\s*\(\s*\)", "(" + m.group(2) + ")", tail)
+    # void helpers without parameters: their body decides the effect of a call
+    helpers = {}
+    for m in re.finditer(r"\bvoid\s+(\w+)\s*\(\s*\)\s*\{", cls):
+        helpers[m.group(1)] = "".join(cls[m.end():balanced(cls, m.end() - 1) - 1].split())
+    toks = tokenize(tail)
     p = P(toks, what)
 
     def refuse(msg):
@@ -1247,7 +1356,7 @@ def gen_run_decision(src):
     for s_ in d:
         if s_[0] != "decl" or len(s_[1]) != 1 or s_[1][0][0] not in ("usize", "ssize") or s_[1][0][2] is None:
             refuse("the four counter declarations after the push loop are not of the understood shape")
-    (t0, n0, i0), (t1, n1, i1), (t2, n2, i2), (t3, n3, i3) = (s_[1][0] for s_ in d)
+    (t0, n0, i0), (t1, n1, i1), (t2, n2, i2), (t3, n3, i3) = (s_[1][0][:3] for s_ in d)
     if t0 != "usize" or t2 != "usize" or i0 != ("call", ("id", "Atomic::increment"), [("id", "_pushedJobs")]) or i2 != ("id", "_threadCount"):
         refuse("counter declarations: expected usize = Atomic::increment(_pushedJobs); … ; usize = _threadCount; …")
     lets = []
@@ -1316,19 +1425,31 @@ def gen_run_decision(src):
     stmts = []
     while p.peek() is not None:
         stmts.append(split_stmt())
-    store = "_idleResetTime=(uint32)(Time::ticks()>>10);"
+    def is_store(text):
+        try:
+            st = parse_body(text, what)
+        except Refuse:
+            return False
+        return st == [("expr", ("assign", ("id", "_idleResetTime"), CLOCK))]
 
-    def effect(text, acts):
-        if text == store:
+    def effect(text, acts, depth=0):
+        if is_store(text):
             return acts + [".clockStore"]
         if "_idleResetTime" in text or "Time::ticks" in text:
             refuse(f"statement touching the idle clock outside the understood forms: {text[:60]}")
+        m = re.fullmatch(r"(\w+)\(\);", text)
+        if m and m.group(1) in helpers and depth < 3:
+            return effect(helpers[m.group(1)], acts, depth + 1)
+        for name, btxt in helpers.items():          # a helper called inside an opaque statement (`if (c) helper();`)
+            if depth < 3 and re.search(r"\b" + name + r"\(\)", text):
+                text = text + btxt
+        if "++_threadCount" in text or "_threadCount++" in text or "Atomic::increment(_threadCount)" in text:
+            # the reservation of a worker (the statement may also contain its creation and the undo of a refused creation)
+            return acts + [".spawn"]
         if "_thread.start(" in text:
             # the creation of the worker thread; its failure branch (undoing the reservation, fixes/future/0006) is an environment
             # choice of the extended system XReachFix (SpawnFail.lean), not part of the decision
             return acts
-        if "++_threadCount" in text or "_threadCount++" in text or "Atomic::increment(_threadCount)" in text:
-            return acts + [".spawn"]
         if "--_threadCount" in text or "_threadCount--" in text or "Atomic::decrement(_threadCount)" in text:
             return acts + [".retire"]
         return acts
@@ -1357,7 +1478,7 @@ def gen_run_decision(src):
             except KeyError:
                 cj = None
         if cj is None:
-            if store in text or "Time::ticks" in text:
+            if "_idleResetTime" in text or "Time::ticks" in text:
                 refuse("the idle clock is used under a condition that is not a decision over the counters")
             return ex(rest, effect(text, acts), ind)
         def paren(lines):
@@ -1427,7 +1548,7 @@ def fut_env(enum):
 
 
 def gen_future_hpp(repo, src_cpp):
-    hdr = strip_comments((Path(repo) / "include" / "nstd" / "Future.hpp").read_text())
+    hdr = strip_asserts(strip_comments((Path(repo) / "include" / "nstd" / "Future.hpp").read_text()))
     fv = class_body(hdr, "class Future<void>", r"template\s*<\s*>\s*class\s+Future\s*<\s*void\s*>")
     fa = class_body(hdr, "class Future<A>", r"template\s*<\s*typename\s+A\s*>\s*class\s+Future\b(?!\s*;)")
     m = re.search(r"enum\s+State\s*\{([^}]*)\}", fv)
@@ -1490,6 +1611,10 @@ def gen_future_hpp(repo, src_cpp):
     for key, rx, var in (("void", r"template\s*<\s*class\s+A\s*>\s*void\s+Future<void>::proc\(\s*A\s*\*\s*a\s*\)", "a"),
                          ("A", r"template\s*<\s*typename\s+A\s*>\s*template\s*<\s*class\s+B\s*>\s*void\s+Future<A>::proc\(\s*B\s*\*\s*b\s*\)", "b")):
         body, _ = extract(hdr, f"Future<{key}>::proc", rx)
+        # a local `Future<X> *const name = (Future<X> *)v->z;` is an alias of the cast expression
+        for m in list(re.finditer(r"Future<(void|A)>\s*\*\s*(?:const\s+)?(\w+)\s*=\s*\(\s*Future<\1>\s*\*\s*\)\s*" + var + r"->z\s*;", body)):
+            body = body.replace(m.group(0), "")
+            body = re.sub(r"\b" + m.group(2) + r"\s*->", f"((Future<{m.group(1)}>*){var}->z)->", body)
         seq = []
         for st in [x.strip() for x in body.split(";") if x.strip()]:
             t = "".join(st.split())
@@ -1544,6 +1669,7 @@ inductive GStep (L R : Type) where
 def generate(repo, out):
     src = strip_comments((Path(repo) / "src" / "Future.cpp").read_text())
     src = re.sub(r'NSTD_VERIF_YIELD\("[a-z]+",\s*&[^;()]*\);', "", src)      # markers of the verification hook: no effect
+    src = strip_asserts(src)
     parts = [HEADER]
     counts = {}
     txt, n = compile_fn(src, "LockFreeQueue::push", r"LockFreeQueue<T>::push\(\s*const\s+T\s*&\s*data\s*\)", RING_ENV,
@@ -1574,7 +1700,10 @@ def generate(repo, out):
     counts["run prefix"] = n
     parts.append("/-! ### LockFreeQueue<T>::LockFreeQueue -/\n" + gen_queue_ctor(src))
     parts.append("/-! ### ThreadPool::ThreadPool -/\n" + gen_pool_ctor(src))
-    parts.append("/-! ### ThreadPool::run: counters and conditions -/\n" + gen_run_decision(src))
+    parts.append("/-! ### ThreadPool::run: counters and conditions -/\n" + gen_run_decision(src, pool_cls))
+    sp, sc = gen_signal(repo)
+    parts += sp
+    counts.update(sc)
     hp, hc = gen_future_hpp(repo, src)
     parts += hp
     counts.update(hc)
